@@ -29,19 +29,7 @@ FINDINGS = {
     "bind-target-sibling": "C01-bind-target-sibling",
     "not-of-error": "C01-not-of-error",
     "bind-arg-unbound": "C01-bind-arg-unbound",
-    "memo-key-collision": "C01-memo-key-collision",
-    "group-by-without-aggregate": "C01-group-by-without-aggregate",
 }
-
-
-def extra_classes(q):
-    """classes decided on the SELECT clause / constants (the pattern classes come from coq/Sparql/Classes.v)"""
-    out = set()
-    if L.has_apostrophe_constant(q):
-        out.add("memo-key-collision")
-    if q["group_by"] and (q["proj"] == "*" or all(k == "VAR" for k, _, _ in q["proj"])):
-        out.add("group-by-without-aggregate")
-    return out
 
 
 def run_model_retry(ctx, exprs, requires=None, tries=3):
@@ -168,7 +156,6 @@ def evaluate(ctx, binpath, cases, stream, coq=True, known_ok=None):
                 if classes & {"subselect-in-graph-var", "undef-filter-sibling", "bind-target-sibling"}:
                     ctx.broken("correspondence", stream + ":classifier", "a case inside a scoping class satisfies the hypotheses of C01_pattern",
                                {"q": q, "query": c["query"], "classes": sorted(classes)})
-        classes = classes | extra_classes(q)
         if not wellscoped:
             st["not_wellscoped_skipped"] = st.get("not_wellscoped_skipped", 0) + 1   # outside the property's quantifier
             continue
@@ -241,7 +228,6 @@ def replay_known(ctx, binpath):
         rows = im.get("query", {}).get("rows")
         bad = "no rows" if rows is None else L.check_answer(q, spec, rows)
         cls, _ = L.classify(q)
-        cls = cls | extra_classes(q)
         if k["id"] not in [FINDINGS.get(x) for x in cls]:
             ctx.broken("correspondence", "known-finding-replay", "the witness of %s is not inside its own class" % k["id"], w)
         if bad:
